@@ -736,6 +736,16 @@ func (e *Env) call(x *Expr) TV {
 			sfail("unknown type %s", args[1].Str)
 		}
 		return TV{unbox(e.st, iv, t), t}
+	case "ghostval":
+		// ghostval("$name", ref): a ghost field read by reference
+		if args[0].Op != "str" {
+			sfail("ghostval(\"$name\", ref)")
+		}
+		srt, gt := e.x.eng.ghostSort(args[0].Str)
+		return TV{Sc{e.load("X|"+args[0].Str, []Sort{SInt}, srt, []Term{e.term(args[1])})}, gt}
+	case "unixTime":
+		// time.Unix(sec, 0) as integer nanoseconds
+		return scInt(Add(unixEpochT, App(SInt, "*", e.term(args[0]), IntLit(1000000000))))
 	case "fnid":
 		// identity of a package-level function used as a value
 		if args[0].Op != "str" || e.pkg == nil {
